@@ -1,6 +1,7 @@
 // C10: lookup queries compared with a brute-force search over the stored definitions (snapshot), under the
 // contract documented in TopologyKernel.hh.  Argument tuples are FREE symbolic values (the lookups only read).
-// All oracle loops have constant bounds + guards (HARNESS_GUIDE rule 3).
+// Oracle loops over entities run to the (concrete) entity counts; loops over the valence of a SYMBOLIC face/cell have
+// constant bounds + guards (HARNESS_GUIDE rule 3).
 #pragma once
 #include "mesh_common.h"
 
@@ -17,13 +18,13 @@ static inline bool c10_live_hf(const Snap &s, int g) { return g >= 0 && g < 2 * 
 // some live halfedge a -> b exists
 static inline bool c10_exists_he(const Snap &s, int a, int b) {
   bool r = false;
-  for (int h = 0; h < 2 * MAXE; ++h) if (h < 2 * s.nE && !s.edel[h >> 1] && snap_he_from(s, h) == a && snap_he_to(s, h) == b) r = true;
+  for (int h = 0; h < 2 * s.nE; ++h) if (!s.edel[h >> 1] && snap_he_from(s, h) == a && snap_he_to(s, h) == b) r = true;
   return r;
 }
 // some halfedge a -> b whose edge belongs to a face of cell c
 static inline bool c10_exists_he_in_cell(const Snap &s, int a, int b, int c) {
   bool r = false;
-  for (int h = 0; h < 2 * MAXE; ++h) if (h < 2 * s.nE && snap_he_from(s, h) == a && snap_he_to(s, h) == b && snap_cell_has_edge(s, c, h >> 1)) r = true;
+  for (int h = 0; h < 2 * s.nE; ++h) if (snap_he_from(s, h) == a && snap_he_to(s, h) == b && snap_cell_has_edge(s, c, h >> 1)) r = true;
   return r;
 }
 // halfface g lists halfedge he
@@ -96,7 +97,7 @@ static void check_lookups(const TopologyKernel &m, unsigned groups) {
   if ((groups & G_HF_HES) && nHE > 0) {
     int h0 = c10_below(nHE), h1 = c10_below(nHE), h2 = c10_below(nHE);
     bool ex = false;
-    for (int g = 0; g < 2 * MAXF; ++g) if (g < nHF && !s.fdel[g >> 1] && c10_hf_has_he(s, g, h0) && c10_hf_has_he(s, g, h1)) ex = true;
+    for (int g = 0; g < nHF; ++g) if (!s.fdel[g >> 1] && c10_hf_has_he(s, g, h0) && c10_hf_has_he(s, g, h1)) ex = true;
     int r = m.find_halfface(vec2(HEH(h0), HEH(h1))).idx();
     if (r >= 0) v_assert(c10_live_hf(s, r) && c10_hf_has_he(s, r, h0) && c10_hf_has_he(s, r, h1), "C10 find_halfface(halfedges): a returned halfface is live and lists both halfedges");
     v_assert((r >= 0) == ex, "C10 find_halfface(halfedges): valid iff some live halfface lists both halfedges");
@@ -110,7 +111,7 @@ static void check_lookups(const TopologyKernel &m, unsigned groups) {
   if ((groups & G_HF_VS) && s.nV > 0) {
     int vs[4]; for (int i = 0; i < 4; ++i) vs[i] = c10_below(s.nV);
     bool ex = false;
-    for (int g = 0; g < 2 * MAXF; ++g) if (g < nHF && !s.fdel[g >> 1] && c10_hf_consec(s, g, vs[0], vs[1], vs[2])) ex = true;
+    for (int g = 0; g < nHF; ++g) if (!s.fdel[g >> 1] && c10_hf_consec(s, g, vs[0], vs[1], vs[2])) ex = true;
     int r = m.find_halfface(c10_vs(vs, 3)).idx();
     if (r >= 0) v_assert(c10_live_hf(s, r) && c10_hf_consec(s, r, vs[0], vs[1], vs[2]), "C10 find_halfface(vertices): a returned halfface is live and has v0,v1,v2 as consecutive vertices");
     v_assert((r >= 0) == ex, "C10 find_halfface(vertices): valid iff some live halfface has v0,v1,v2 as consecutive vertices");
@@ -124,7 +125,7 @@ static void check_lookups(const TopologyKernel &m, unsigned groups) {
     int vs[5]; for (int i = 0; i < 5; ++i) vs[i] = c10_below(s.nV);
     for (int n = 3; n <= 5; ++n) {
       bool ex = false;
-      for (int g = 0; g < 2 * MAXF; ++g) if (g < nHF && !s.fdel[g >> 1] && c10_hf_equals(s, g, vs, n)) ex = true;
+      for (int g = 0; g < nHF; ++g) if (!s.fdel[g >> 1] && c10_hf_equals(s, g, vs, n)) ex = true;
       int r = m.find_halfface_extensive(c10_vs(vs, n)).idx();
       if (r >= 0) v_assert(c10_live_hf(s, r) && c10_hf_equals(s, r, vs, n), "C10 find_halfface_extensive: a returned halfface is live and its vertex cycle from v0 equals the list");
       v_assert((r >= 0) == ex, "C10 find_halfface_extensive: valid iff some live halfface has exactly this vertex cycle");
